@@ -343,7 +343,7 @@ package netpoll
 //@   modifies c.waitReadSize, c.readTimer, time.Timer.tstate, UnsafeLinkBuffer.length, locker.keychain, wrPub, wrLenSeen, wrLenVal, wrCloseSeen, wrCloseVal, wrBlocked
 //@   ghost after call atomic.StoreInt64#1: wrPub = true
 //@   ghost after call (*UnsafeLinkBuffer).Len#2: wrLenSeen = wrPub; wrLenVal = result
-//@   ghost after call (*locker).status#1: wrCloseSeen = wrLenSeen; wrCloseVal = result
+//@   ghost after call (*locker).status#2: wrCloseSeen = wrLenSeen; wrCloseVal = result
 //@   ghost before recv readTrigger#1: assert wrPub && wrLenSeen && wrLenVal < n && wrCloseSeen && wrCloseVal != 1 && wrCloseVal != 2; wrBlocked = true
 //@   loop 1 invariant connok(c) && wrPub && (c.readTimer != nil ==> c.readTimer.tstate == 0) && c.readTimer == old(c.readTimer)
 //@   loop 1 invariant old(c.keychain[closing]) != 0 ==> !wrBlocked
